@@ -1,4 +1,7 @@
-"""Script generator for C20 (Range.h)."""
+"""Script generator for C20 (Range.h).
+
+`case <tag> <type> [scale]`: type in int / uint / double; a script integer n stands for the
+coordinate n / scale (scale 1, 2 or 4, only for double: non-integral dyadic doubles)."""
 import random, itertools
 
 TYPES = ["int", "uint", "double"]
@@ -7,30 +10,49 @@ TYPES = ["int", "uint", "double"]
 def generate(seed, tier):
     rng = random.Random(seed)
     cases = []
-    # 1. range-level predicates/expansion/slicing: exhaustive over end points 0..6 (all order types,
-    #    incl. empty, touching, nested, reversed-argument), per coordinate type
+    # 1. range-level predicates / comparison operators / toString / expansion / slicing: exhaustive over
+    #    end points 0..6 (all order types, incl. empty, touching, nested, reversed-argument), per type
     U = 7
     for ty in TYPES:
         ops = []
         for a, b, c, d in itertools.product(range(U), repeat=4):
             ops += ["r.pred %d %d %d %d" % (a, b, c, d), "r.expand %d %d %d %d" % (a, b, c, d), "r.slice %d %d %d %d" % (a, b, c, d)]
-        for a, b, v in itertools.product(range(U), range(U), range(0, 9, 4)):
+        # shifts up and down, by more than begin / end (unsigned wraps; a "negative" amount arrives as 2^32-v)
+        shifts = [-9, -4, -1, 0, 1, 4, 8]
+        if ty == "uint":
+            shifts += [4294967295, 4294967290, 2147483648]
+        for a, b, v in itertools.product(range(U), range(U), shifts):
             ops.append("r.shift %d %d %d" % (a, b, v))
+        for a in range(U):
+            ops.append("r.ctor %d" % a)
+        for a, b in itertools.product(range(U), repeat=2):
+            ops.append("r.copy %d %d %d" % (a, b, 1 + (a + b) % 3))
         # split into cases of 300 ops
         for i in range(0, len(ops), 300):
             cases.append(["case rng%d %s" % (i, ty)] + ops[i:i + 300])
-    # 2. exhaustive multi-range / range-set histories over the universe 0..6
+    # 1b. non-integral doubles (halves and quarters) over 0..6
+    for sc in (2, 4):
+        ops = []
+        for _ in range(1500 if tier == "thorough" else 400):
+            a, b, c, d = [rng.randint(0, 6 * sc) for _ in range(4)]
+            if rng.random() < 0.2:
+                b = a
+            if rng.random() < 0.2:
+                d = rng.choice([a, b, c])
+            ops += ["r.pred %d %d %d %d" % (a, b, c, d), "r.expand %d %d %d %d" % (a, b, c, d), "r.slice %d %d %d %d" % (a, b, c, d),
+                    "r.shift %d %d %d" % (a, b, rng.randint(-8 * sc, 8 * sc))]
+        for i in range(0, len(ops), 300):
+            cases.append(["case frac%d_%d double %d" % (sc, i, sc)] + ops[i:i + 300])
+    # 2. exhaustive multi-range / range-set histories over the universe 0..6, for int, unsigned and double
     pairs_all = [(a, b) for a in range(U) for b in range(U)]
     pairs_ord = [(a, b) for a in range(U) for b in range(a, U)]
     kinds = ["add", "restrict", "filter"]
     if tier == "thorough":
         steps = [[(k, a, b) for k in kinds for (a, b) in pairs_ord]] * 3
         seqs = itertools.product(*steps)
-        tylist = ["int"]
     else:
         steps = [[(k, a, b) for k in kinds for (a, b) in pairs_all]] * 2
         seqs = itertools.product(*steps)
-        tylist = ["int"]
     n = 0
     for seq in seqs:
         # histories that do not start with an add act on an empty collection: keep one in 10
@@ -38,48 +60,54 @@ def generate(seed, tier):
             n += 1
             continue
         n += 1
-        ty = tylist[n % len(tylist)]
         ops = []
         for (k, a, b) in seq:
             ops.append("mr.%s 0 %d %d" % (k, a, b))
             ops.append("rs.%s 0 %d %d" % (k, a, b))
-        cases.append(["case ex%d %s" % (n, ty)] + ops)
+        # quick: every history at every coordinate type; thorough (length 3): the type rotates
+        for ty in (TYPES if tier != "thorough" else [TYPES[(n + seed) % 3]]):
+            cases.append(["case ex%d %s" % (n, ty)] + ops)
     # 3. random histories up to length 12 over 0..24 with 4 registers, copies/assignments and clears
     nrand = 40000 if tier == "thorough" else 3000
     for i in range(nrand):
         ty = TYPES[i % 3]
+        sc = rng.choice([1, 1, 2, 4]) if ty == "double" else 1
+        M = 24 * sc
         L = rng.randint(1, 12)
         ops = []
         for _ in range(L):
             r = rng.random()
             k = rng.randint(0, 1)
             pre = "mr" if rng.random() < 0.75 else "rs"
-            a, b = rng.randint(0, 24), rng.randint(0, 24)
+            a, b = rng.randint(0, M), rng.randint(0, M)
             if rng.random() < 0.15:
                 b = a
-            if r < 0.55:
+            if r < 0.50:
                 ops.append("%s.add %d %d %d" % (pre, k, a, b))
-            elif r < 0.72:
+            elif r < 0.67:
                 # restrictions are biased to be wide so that collections stay populated
                 if rng.random() < 0.5:
-                    a, b = rng.randint(0, 8), rng.randint(14, 24)
+                    a, b = rng.randint(0, 8 * sc), rng.randint(14 * sc, M)
                 ops.append("%s.restrict %d %d %d" % (pre, k, a, b))
-            elif r < 0.84:
+            elif r < 0.80:
                 if rng.random() < 0.5:
-                    a, b = rng.randint(0, 8), rng.randint(14, 24)
+                    a, b = rng.randint(0, 8 * sc), rng.randint(14 * sc, M)
                 ops.append("%s.filter %d %d %d" % (pre, k, a, b))
-            elif r < 0.88:
+            elif r < 0.84:
                 ops.append("%s.clear %d" % (pre, k))
+            elif r < 0.88:
+                # getRange(i) for i around size (i >= size is reported as oob by the harness, not called)
+                ops.append("%s.at %d %d" % (pre, k, rng.randint(0, 4)))
             elif r < 0.94:
                 j = rng.randint(0, 3)
                 ops.append("%s.copy %d %d" % (pre, k, j))
                 # independence: mutate the copy, then look at the source again
-                ops.append("%s.add %d %d %d" % (pre, j, rng.randint(0, 24), rng.randint(0, 24)))
+                ops.append("%s.add %d %d %d" % (pre, j, rng.randint(0, M), rng.randint(0, M)))
                 ops.append("%s.get %d" % (pre, k))
             else:
                 j = rng.randint(0, 3)
                 ops.append("%s.assign %d %d" % (pre, k, j))
-                ops.append("%s.restrict %d %d %d" % (pre, j, rng.randint(0, 12), rng.randint(12, 24)))
+                ops.append("%s.restrict %d %d %d" % (pre, j, rng.randint(0, 12 * sc), rng.randint(12 * sc, M)))
                 ops.append("%s.get %d" % (pre, k))
-        cases.append(["case rnd%d %s" % (i, ty)] + ops)
+        cases.append(["case rnd%d %s %d" % (i, ty, sc)] + ops)
     return cases
